@@ -174,8 +174,8 @@ Definition modelled_gates : list gate_row := [
   mk_row "_serverCertKeyExchange" 2 "" [("", [22], [16])];
   mk_row "_serverCertKeyExchange" 3 "clientCertChain" [("", [22], [15])];
   mk_row "_serverAnonKeyExchange" 0 "" [("", [22], [16])];
-  mk_row "_getFinished" 0 "" [("", [22; 20], [4])];
-  mk_row "_getFinished" 1 "expect_ccs_message" [("", [20], [])];
+  mk_row "_getFinished" 0 "expect_new_session_ticket and self._client" [("", [22], [4])];
+  mk_row "_getFinished" 1 "" [("", [22; 20], [])];
   mk_row "_getFinished" 2 "expect_next_protocol" [("", [22], [67])];
   mk_row "_getFinished" 3 "" [("", [22], [20])];
   mk_row "readAsync" 0 ""
@@ -184,6 +184,42 @@ Definition modelled_gates : list gate_row := [
      [("", [21; 23], [])];
   mk_row "_handle_srv_pha" 0 "cert.cert_chain" [("", [22], [15])];
   mk_row "_handle_srv_pha" 1 "" [("", [22], [20])]
+].
+
+(* my reading of every unexpected_message abort site (method, ordinal, enclosing conditions).
+   Those the automaton implements: _clientGetServerHello 0 and _serverGetClientHello 0 (first-flight
+   record boundary, flow at C13_SH0 / S_CH), _clientKeyExchange 0 (CertificateRequest only with
+   certificate suites that are not SRP, flow at C_CRSHD), _getFinished 0 (CCS only between complete
+   handshake messages, flow at F_Ccs), _getMsg 0-7 (getmsg / getmsg_hs).  Compared with the
+   regenerated table by Props.C06.order_checks_as_modelled. *)
+Definition modelled_order_checks : list (string * Z * string) := [
+  ("_clientGetServerHello", 0, "real_version > (3, 3) and (not self._defragmenter.is_empty())");
+  ("_clientTLS13Handshake", 0, "not sr_psk && cert_ext && not settings.dc_sig_algs");
+  ("_clientKeyExchange", 0, "isinstance(result, CertificateRequest) && cipherSuite not in CipherSuite.certAllSuites and cipherSuite not in CipherSuite.ecdheEcdsaSuites and (cipherSuite not in CipherSuite.dheDsaSuites) or cipherSuite in CipherSuite.srpAllSuites");
+  ("_serverGetClientHello", 0, "version > (3, 3) && not self._defragmenter.is_empty()");
+  ("_getFinished", 0, "not self._defragmenter.is_empty()");
+  ("_getFinished", 1, "expect_next_protocol && result is None");
+  ("_getMsg", 0, "self.version > (3, 3) and recordHeader.type != ContentType.handshake and self._defragmenter.buffers[ContentType.handshake]");
+  ("_getMsg", 1, "self.version > (3, 3) and ContentType.handshake in expectedType and self._middlebox_compat_mode and (recordHeader.type == ContentType.change_cipher_spec) && ccs.type != 1");
+  ("_getMsg", 2, "recordHeader.type not in expectedType && recordHeader.type == ContentType.heartbeat and self.heartbeat_supported && heartbeat_message.message_type == HeartbeatMessageType.heartbeat_request && not self.heartbeat_can_receive");
+  ("_getMsg", 3, "recordHeader.type not in expectedType");
+  ("_getMsg", 4, "not (recordHeader.type == ContentType.change_cipher_spec) && not (recordHeader.type == ContentType.alert) && not (recordHeader.type == ContentType.application_data) && recordHeader.type == ContentType.handshake && recordHeader.ssl2 && subType != HandshakeType.client_hello");
+  ("_getMsg", 5, "not (recordHeader.type == ContentType.change_cipher_spec) && not (recordHeader.type == ContentType.alert) && not (recordHeader.type == ContentType.application_data) && recordHeader.type == ContentType.handshake && recordHeader.ssl2 && HandshakeType.client_hello not in secondaryType");
+  ("_getMsg", 6, "not (recordHeader.type == ContentType.change_cipher_spec) && not (recordHeader.type == ContentType.alert) && not (recordHeader.type == ContentType.application_data) && recordHeader.type == ContentType.handshake && not (recordHeader.ssl2) && subType not in secondaryType");
+  ("_getMsg", 7, "not (recordHeader.type == ContentType.change_cipher_spec) && not (recordHeader.type == ContentType.alert) && not (recordHeader.type == ContentType.application_data) && recordHeader.type == ContentType.handshake && self.version > (3, 3) and subType in (HandshakeType.client_hello, HandshakeType.end_of_early_data, HandshakeType.server_hello, HandshakeType.finished, HandshakeType.key_update) and (not self._defragmenter.is_empty())");
+  ("_getNextRecordFromSocket", 0, "except TLSUnexpectedMessage");
+  ("_getNextRecordFromSocket", 1, "header.type != ContentType.application_data and parser.getRemainingLength() == 0");
+  ("_getNextRecordFromSocket", 2, "header.type not in ContentType.all")
+].
+
+(* the defragmenter pieces those checks rely on, as normalised source text *)
+Definition modelled_defrag : list (string * string) := [
+  ("Defragmenter.is_empty", "return all((not i for i in self.buffers.values()))");
+  ("Defragmenter.get_message", "for msg_type in self.priorities: buf = self.buffers[msg_type] length = self.decoders[msg_type](buf) if length is None: continue data = buf[:length] del buf[:length] return (msg_type, data) ; return None");
+  ("Defragmenter.add_data", "if msg_type not in self.priorities: raise ValueError('Message type not defined') ; self.buffers[msg_type] += data");
+  ("Defragmenter.clear_buffers", "for key in self.buffers.keys(): self.buffers[key] = bytearray(0)");
+  ("TLSRecordLayer.defragmenter_setup", "self._defragmenter.add_static_size(ContentType.change_cipher_spec, 1) ; self._defragmenter.add_static_size(ContentType.alert, 2) ; self._defragmenter.add_dynamic_size(ContentType.handshake, 1, 3)");
+  ("is_empty.users", "_clientGetServerHello:1 ; _serverGetClientHello:1 ; _getFinished:1 ; _getMsg:1")
 ].
 
 Definition gate := (list Z * list Z)%type.   (* content types, handshake types *)
@@ -304,9 +340,12 @@ Definition getmsg (x : gctx) (g : gate) (pend : bool) (s : sym) : gres :=
     | PFrag => GSkip None
     | PH t a => getmsg_hs x g t a
     | PCcs ok =>
-        if (x_v13 x && zin 22 cts && x_mb x)%bool
-        then (if ok then GSkip None else GAbort R_unexpected)
+        (* recvRecord: a TLS 1.3 record that opens to inner type change_cipher_spec *)
+        if (x_v13 x && negb (epoch_eqb ep E0))%bool then GAbort R_unexpected
+        (* interleaving ban first, then the middlebox-compatibility tolerance *)
         else if (x_v13 x && pend)%bool then GAbort R_unexpected
+        else if (x_v13 x && zin 22 cts && x_mb x)%bool
+        then (if ok then GSkip None else GAbort R_unexpected)
         else if negb (zin 20 cts) then GAbort R_unexpected
         else GDeliver (DCcs ok)
     | PAlert k =>
@@ -345,12 +384,22 @@ Definition ctx_at (c : cfg) (p : pos) : gctx :=
 (* ------------------------------------------------------------------ the coroutines *)
 Definition after_ccs (c : cfg) : pos :=
   match c_role c with
-  | Server => if c_npn c then F_Npn else F_Fin
+  (* the resumption branch of _serverGetClientHello calls _getFinished without
+     expect_next_protocol *)
+  | Server => if (c_npn c && negb (c_resume c))%bool then F_Npn else F_Fin
   | Client => F_Fin
   end.
 
+(* _getFinished: an announcing client first reads the NewSessionTicket (F_First), everybody
+   else starts at the ChangeCipherSpec gate (F_Ccs) *)
+Definition fin_start (c : cfg) : pos :=
+  match c_role c with
+  | Client => if c_ticket c then F_First else F_Ccs
+  | Server => F_Ccs
+  end.
+
 Definition c12_after_sh (c : cfg) : pos :=
-  if c_resume c then F_First
+  if c_resume c then fin_start c
   else if kx_has_cert (c_kx c) then C_Cert
   else if kx_has_ske (c_kx c) then C_SKE else C_CRSHD.
 
@@ -358,11 +407,12 @@ Definition s_after_ch (c : cfg) : pos :=
   if c_v13 c then
     (if (c_reqcert c && negb (match c_kx c with KPsk13 => true | _ => false end))%bool
      then S13_Cert else S13_Fin)
-  else if c_resume c then F_First
+  else if c_resume c then fin_start c
   else if (c_reqcert c && kx_certreq_ok (c_kx c))%bool then S_Cert else S_CKE.
 
-(* what the coroutine does with a delivered message: (next position, got non-empty cert) *)
-Definition flow (c : cfg) (p : pos) (gc : bool) (d : deliv) : pos * bool :=
+(* what the coroutine does with a delivered message: (next position, got non-empty cert);
+   pd = the defragmenter is non-empty once the message has been taken out *)
+Definition flow (c : cfg) (p : pos) (gc : bool) (pd : bool) (d : deliv) : pos * bool :=
   match p, d with
   (* ---- client <= 1.2 *)
   | C_SH, DHs SH => (c12_after_sh c, gc)
@@ -371,17 +421,17 @@ Definition flow (c : cfg) (p : pos) (gc : bool) (d : deliv) : pos * bool :=
   | C_Cert, DHs CertE => (P_Abort R_any, gc)
   | C_SKE, DHs SKE => (C_CRSHD, gc)
   | C_CRSHD, DHs CR => (if kx_certreq_ok (c_kx c) then C_SHD else P_Abort R_unexpected, gc)
-  | C_CRSHD, DHs SHD => (F_First, gc)
-  | C_SHD, DHs SHD => (F_First, gc)
+  | C_CRSHD, DHs SHD => (fin_start c, gc)
+  | C_SHD, DHs SHD => (fin_start c, gc)
   (* ---- _getFinished *)
   | F_First, DHs NST => (F_Ccs, gc)
-  | F_First, DCcs ok => (if ok then after_ccs c else P_Abort R_illegal, gc)
-  | F_Ccs, DCcs ok => (if ok then after_ccs c else P_Abort R_illegal, gc)
+  | F_Ccs, DCcs ok => (if ok then (if pd then P_Abort R_unexpected else after_ccs c)
+                       else P_Abort R_illegal, gc)
   | F_Npn, DHs NPN => (F_Fin, gc)
   | F_Fin, DHs Fin => (P_Done, gc)
   (* ---- client 1.3 *)
   | C13_SH0, DHs HRR => (C13_SH1, gc)
-  | C13_SH0, DHs SH => (C13_EE, gc)
+  | C13_SH0, DHs SH => (if pd then P_Abort R_unexpected else C13_EE, gc)
   | C13_SH1, DHs SH => (C13_EE, gc)
   | C13_SH1, DHs HRR => (P_Abort R_any, gc)
   | C13_EE, DHs EE => (match c_kx c with KPsk13 => C13_Fin | _ => C13_CRCert end, gc)
@@ -395,14 +445,15 @@ Definition flow (c : cfg) (p : pos) (gc : bool) (d : deliv) : pos * bool :=
   | C13_CV, DHs CV => (C13_Fin, gc)
   | C13_Fin, DHs Fin => (P_Done, gc)
   (* ---- server *)
-  | S_CH, DHs CH => (if (c_v13 c && c_hrr c)%bool then S13_CH2 else s_after_ch c, gc)
+  | S_CH, DHs CH => (if (c_v13 c && pd)%bool then P_Abort R_unexpected
+                     else if (c_v13 c && c_hrr c)%bool then S13_CH2 else s_after_ch c, gc)
   | S13_CH2, DHs CH => (s_after_ch c, gc)
   | S_Cert, DHs CertN => (S_CKE, true)
   | S_Cert, DHs CertE => (S_CKE, false)
   | S_Cert, DAlert AWarnNoCert => (S_CKE, false)
   | S_Cert, DAlert _ => (P_Abort R_remote, gc)
-  | S_CKE, DHs CKE => (if gc then S_CV else F_First, gc)
-  | S_CV, DHs CV => (F_First, gc)
+  | S_CKE, DHs CKE => (if gc then S_CV else fin_start c, gc)
+  | S_CV, DHs CV => (fin_start c, gc)
   | S13_Cert, DHs CertN => (S13_CV, true)
   | S13_Cert, DHs CCert => (S13_CV, true)
   | S13_Cert, DHs CertE => (S13_Fin, false)
@@ -487,7 +538,7 @@ Definition step_t (t : gtab) (c : cfg) (s : st) (e : sym) : st * option Z :=
           (mk_st (match p with P_Done => P_Post | _ => p end) buf' (gotc s) bep', w)
       | GAbort rs => (mk_st (P_Abort rs) (buf s) (gotc s) (bep s), None)
       | GDeliver d =>
-          let '(p', gc') := flow c p (gotc s) d in
+          let '(p', gc') := flow c p (gotc s) (match buf' with BEmpty => false | _ => true end) d in
           (mk_st p' buf' gc' bep', None)
       end
   end.
@@ -526,10 +577,7 @@ Definition completes (G : list gate_row) (c : cfg) (w : list sym) : bool := is_d
 
 Definition bools : list bool := [false; true].
 
-(* the configurations the theorems quantify over.  Flags that the flow ignores in a given
-   situation (key exchange when resuming, reqcert for suites without client authentication,
-   ssl3 without reqcert, ...) are not multiplied out; heartbeat is combined with a
-   representative subset. *)
+(* the configurations the theorems quantify over: full products per role and version class *)
 Definition cl12 (k : kx) (tk rs hb : bool) : cfg := mk_cfg Client false false k false tk false false rs hb false.
 Definition sv12 (k : kx) (s3 rq np rs hb : bool) : cfg := mk_cfg Server false s3 k rq false np false rs hb false.
 Definition cl13 (k : kx) (cc hb : bool) : cfg := mk_cfg Client true false k false false false false false hb cc.
@@ -537,19 +585,14 @@ Definition sv13 (k : kx) (rq hr hb : bool) : cfg := mk_cfg Server true false k r
 
 Definition kx12 : list kx := [KRsa; KDhe; KEcdhe; KSrp; KSrpCert; KAnon].
 Definition cfgs_client12 : list cfg :=
-  flat_map (fun k => [cl12 k false false false; cl12 k true false false]) kx12
-  ++ [cl12 KRsa false true false; cl12 KRsa true true false;
-      cl12 KEcdhe false false true; cl12 KEcdhe true false true; cl12 KRsa true true true].
+  flat_map (fun k => flat_map (fun tk => flat_map (fun rs => flat_map (fun hb =>
+    [cl12 k tk rs hb]) bools) bools) bools) kx12.
 Definition cfgs_server12 : list cfg :=
-  flat_map (fun k => [sv12 k false false false false false; sv12 k false false true false false]) kx12
-  ++ flat_map (fun k => flat_map (fun s3 => [sv12 k s3 true false false false; sv12 k s3 true true false false]) bools)
-              [KRsa; KDhe; KEcdhe]
-  ++ [sv12 KRsa false false false true false;
-      sv12 KEcdhe false true true false true; sv12 KRsa true true false false true;
-      sv12 KRsa false false false true true].
+  flat_map (fun k => flat_map (fun s3 => flat_map (fun rq => flat_map (fun np => flat_map (fun rs =>
+    flat_map (fun hb => [sv12 k s3 rq np rs hb]) bools) bools) bools) bools) bools) kx12.
 Definition cfgs_client13 : list cfg :=
-  flat_map (fun k => flat_map (fun cc => [cl13 k cc false; cl13 k cc true]) bools) [KCert13; KPsk13].
+  flat_map (fun k => flat_map (fun cc => flat_map (fun hb => [cl13 k cc hb]) bools) bools) [KCert13; KPsk13].
 Definition cfgs_server13 : list cfg :=
-  flat_map (fun k => flat_map (fun rq => [sv13 k rq false false; sv13 k rq true false]) bools) [KCert13; KPsk13]
-  ++ [sv13 KCert13 true true true; sv13 KPsk13 false false true].
+  flat_map (fun k => flat_map (fun rq => flat_map (fun hr => flat_map (fun hb =>
+    [sv13 k rq hr hb]) bools) bools) bools) [KCert13; KPsk13].
 Definition all_cfgs : list cfg := cfgs_client12 ++ cfgs_server12 ++ cfgs_client13 ++ cfgs_server13.
